@@ -458,6 +458,8 @@ class CSemantics:
     ):
         """Handle a struct/union field declaration"""
         ctyp = self.apply_type_modifiers(modifiers, ctyp)
+        if ctyp.is_struct_or_union and not ctyp.is_complete:
+            self.error("Field has incomplete type", location)
         if bitsize is None:
             pass
         else:
